@@ -97,19 +97,20 @@ void run_case(ByteSource& bs, CaseInfo& ci) {
   auto specified_nonempty = [&](int j) { return w.s[j].v && w.s[j].spec && w.s[j].kind != EMPTY && w.s[j].d > 0; };
   for (int step = 0; step < nops && !bs.exhausted(); step++) {
     unsigned op = bs.choose(19);
+    if (op == 18 && bs.tail_choose(2) == 1) op = 19;  // (op 19 was added later: chosen through a tail byte so that saved cases keep their decoding)
     // construction, not rejection: slots are drawn among those that satisfy the operation's precondition
-    auto pick = [&](int need) -> int {  // 0 absent, 1 live, 2 live specified, 3 specified non-empty, 4 any
+    auto pick = [&](int need) -> int {  // 0 absent, 1 live, 2 live specified, 3 specified non-empty, 4 any, 5 specified empty
       int cand[NS], n = 0;
       for (int q = 0; q < NS; q++) {
-        bool ok = need == 4 || (need == 0 && !w.s[q].v) || (need == 1 && w.s[q].v) || (need == 2 && w.s[q].v && w.s[q].spec) || (need == 3 && specified_nonempty(q));
+        bool ok = need == 4 || (need == 5 && w.s[q].v && w.s[q].spec && w.s[q].kind == EMPTY) || (need == 0 && !w.s[q].v) || (need == 1 && w.s[q].v) || (need == 2 && w.s[q].v && w.s[q].spec) || (need == 3 && specified_nonempty(q));
         if (ok) cand[n++] = q;
       }
       unsigned r = bs.choose(NS);
       return n ? cand[r % n] : (int)r;
     };
-    static const int NEED_I[19] = {0, 0, 0, 0, 0, 0, 0, 1, 1, 1, 0, 3, 3, 3, 3, 1, 4, 1, 4};
-    static const int NEED_J[19] = {4, 4, 4, 4, 4, 2, 1, 2, 1, 3, 3, 3, 3, 4, 4, 4, 4, 1, 4};
-    static const int NEED_K[19] = {4, 4, 4, 4, 4, 4, 4, 4, 4, 3, 3, 4, 4, 4, 4, 4, 4, 4, 4};
+    static const int NEED_I[20] = {0, 0, 0, 0, 0, 0, 0, 1, 1, 1, 0, 3, 3, 3, 3, 1, 4, 1, 4, 4};
+    static const int NEED_J[20] = {4, 4, 4, 4, 4, 2, 1, 2, 1, 3, 3, 3, 3, 4, 4, 4, 4, 1, 4, 5};
+    static const int NEED_K[20] = {4, 4, 4, 4, 4, 4, 4, 4, 4, 3, 3, 4, 4, 4, 4, 4, 4, 4, 4, 5};
     int i = pick(NEED_I[op]), j = pick(NEED_J[op]), k = pick(NEED_K[op]);
     if ((op == 9 || op == 10 || op == 11 || op == 12) && specified_nonempty(j)) {  // prefer a second operand of the same dimension
       int cand[NS], n = 0;
@@ -303,6 +304,37 @@ void run_case(ByteSource& bs, CaseInfo& ci) {
       }
       case 15: if (!S.v) continue; touch_consumed(w, i); S = Slot(); snprintf(nm, sizeof nm, "destroy(s%d)", i); break;
       case 16: SU_vector::clear_mem_cache(); snprintf(nm, sizeof nm, "clear_mem_cache"); break;
+      case 19: {  // an element-wise expression whose operands are empty vectors (default constructed, or moved from and so "moved from again" by the
+        // expression): either a library exception or an empty result; no other vector is affected
+        if (!J.v || !J.spec || J.kind != EMPTY || !K.v || !K.spec || K.kind != EMPTY) continue;
+        bool construct = !S.v;
+        if (!construct && (!S.spec || S.kind == EXT || i == j || i == k)) continue;
+        unsigned form = bs.choose(8);
+        SU_vector &A = *J.v, &B = *K.v;
+        bool threw = false;
+        try {
+#define EMPTY_SWITCH(ASSIGN)                                                \
+  switch (form) {                                                          \
+    case 0: ASSIGN(A + B); break;                                           \
+    case 1: ASSIGN(std::move(A) + B); break;                                \
+    case 2: ASSIGN(A - B); break;                                           \
+    case 3: ASSIGN(-A); break;                                              \
+    case 4: ASSIGN(-std::move(A)); break;                                   \
+    case 5: ASSIGN(std::move(A) * 2.0); break;                              \
+    case 6: ASSIGN(A * 2.0); break;                                         \
+    default: ASSIGN(squids::ElementwiseProduct(A, B)); break;               \
+  }
+          if (construct) { S = Slot(); EMPTY_SWITCH(DO_CONSTRUCT) } else { EMPTY_SWITCH(DO_ASSIGN) }
+        } catch (const std::exception&) { threw = true; }
+        snprintf(nm, sizeof nm, "s%d%sexpr-of-empties%u(s%d,s%d)%s", i, construct ? ":=" : "=", form, j, k, threw ? "(threw)" : "");
+        if (!threw) {
+          if (S.v && S.v->Dim() != 0) { w.log += nm; fail_ctx(w, "C08|expression-of-empty-operands|non-empty-result", fmt("dimension %u", S.v->Dim())); }
+          if (S.v) { S.spec = true; S.kind = EMPTY; S.d = 0; S.buf = -1; S.vals.clear(); S.ext_origin = false; S.consumed_with_live_thief = false; }
+        } else if (construct) { S = Slot(); }
+        else { w.log += nm; w.log += "; "; check_world(w, nm); continue; }  // a rejected assignment leaves the target as it was
+        ci.label("expression-of-empty-operands");
+        break;
+      }
       case 17: {  // comparison
         if (!S.v || !J.v) continue;
         touch_consumed(w, i); touch_consumed(w, j);
@@ -350,5 +382,12 @@ void regressions() {
     a = other;   // must not write into t's storage
     CHECK(comps(*t) == tv, "C08|two-vectors-share-storage", "regression: assigning to a consumed operand changed the result (d=%d form=%d)", d, form);
     CHECK(a.Dim() == (unsigned)d && &a[0] != &(*t)[0], "C08|two-vectors-share-storage", "regression: consumed operand and result share storage (d=%d form=%d)", d, form);
+  }
+  // f529a91: element-wise expressions over empty operands (null dereference at -O2)
+  {
+    SU_vector a(3); SU_vector b(std::move(a));
+    SU_vector c = std::move(a) * 2.0; SU_vector e1, e2, x(2);
+    x = e1 + e2; SU_vector y(-e1); x = squids::ElementwiseProduct(e1, e2); x = e1 - e2;
+    CHECK(c.Dim() == 0 && x.Dim() == 0 && y.Dim() == 0 && b.Dim() == 3, "C08|expression-of-empty-operands|non-empty-result", "regression");
   }
 }
